@@ -259,9 +259,19 @@ func TestC07(t *testing.T) {
 	rnames := []string{"a", "b", "a/b", "ab", "a/x/b", "", "a.b", "axb", "a\nb", "dev/key", "x", "dev/", "_internal/x", "é", "équipe/", "équipe/x", "秘密/db", "秘密/", "k/🔑", "éé", "日本", "a\\Eb", " a", "a\n", "x\n", " ", "\ta/b\t", "a ", "a/b", "!x", "!", "!a/b", "!dev/key", "#a", "~a/b", "-x", "a/b c", "a/x b/y"}
 	genRules := func(rng *rand.Rand) []refmodel.Rule {
 		n := rng.IntN(5)
+		long := rng.IntN(8) == 0
+		if long {
+			n = 12 + rng.IntN(22) // a peer covered by a lot of grants: 12..33 rules
+		}
 		rules := make([]refmodel.Rule, 0, n)
 		for i := 0; i < n; i++ {
 			var ru refmodel.Rule
+			if long && i < n-3 && rng.IntN(4) != 0 {
+				// (most rules of a long list do not concern the names asked about: what grants, if anything
+				// does, tends to be a single rule somewhere - also among the last ones)
+				rules = append(rules, refmodel.Rule{Actions: []string{acts[rng.IntN(len(acts))]}, Patterns: []string{fmt.Sprintf("unrelated/%d/*", i)}})
+				continue
+			}
 			for j, na := 0, rng.IntN(4); j < na; j++ {
 				ru.Actions = append(ru.Actions, acts[rng.IntN(len(acts))])
 			}
